@@ -34,7 +34,10 @@ def describe(c):
 
 
 def stratum(c):
-    return (c["world"], len(c["srcs"]), c["expect"], ",".join(sorted(c["errs"])), c["why"], c["tgt"]["side"],
+    if c["expect"] == "error":      # rows that must fail: by error classes and sides
+        return ("", len(c["srcs"]) > 1, "error", ",".join(sorted(c["errs"])), "", c["tgt"]["side"],
+                "".join(sorted({a["side"][0] for a in c["srcs"]})), False, False)
+    return (c["world"], len(c["srcs"]), c["expect"], "", c["why"], c["tgt"]["side"],
             "".join(sorted({a["side"][0] for a in c["srcs"]})), c["r"], c["caps"])
 
 
@@ -79,10 +82,13 @@ def run(ctx):
         sel = []
         for key in sorted(strata, key=str):
             idx = strata[key]
-            k = 3 if key[2] == "ok" else 1
-            sel += rng.sample(idx, min(len(idx), k))
+            sel += rng.sample(idx, min(len(idx), 2 if key[2] == "ok" else 1))
+        if len(sel) > 420:      # rows that must fail: at most as many as fit
+            keep = [i for i in sel if cases[i]["expect"] != "error"]
+            errs = [i for i in sel if cases[i]["expect"] == "error"]
+            sel = keep + rng.sample(errs, max(0, 420 - len(keep)))
         rest = sorted(set(i for i, c in enumerate(cases) if c["expect"] == "ok") - set(sel))
-        sel += rng.sample(rest, min(len(rest), max(0, 520 - len(sel))))
+        sel += rng.sample(rest, min(len(rest), max(0, 420 - len(sel))))
     else:
         sel = list(range(len(cases)))
     rng.shuffle(sel)
@@ -117,32 +123,36 @@ def run(ctx):
         def bad(key, problem):
             ctx.report(key="case:" + key, what="%s: %s; Spec: expect=%s %s" % (problem, what, c["expect"], sorted(c["errs"])), replay=replay)
 
-        flags = ("-r" if c["r"] else "") + ("caps" if c["caps"] else "")
+        flags = ("caps_only" if c["caps"] else "plain") + (":-r" if c["r"] else "")
         other = "grid" if ts == "local" else "local"
         if c["expect"] == "unspec":
             unspec["%s: %s" % (c["why"], o["status"])] += 1
             continue
         if got[other] is not None and got[other] != w0[other]:
             kind, p = diff_class(w0[other], got[other])
-            bad("other_side_changed:%s:%s" % (sides, kind), "the %s tree changed at %s" % (other, p))
+            bad("other_side_changed:%s:%s" % (kind, sides), "the %s tree changed at %s" % (other, p))
         if c["expect"] == "ok":
             if o["status"] != "ok":
-                bad("ok_expected:%s:got_%s:%s" % (sides, o["status"], flags), "the command must succeed")
+                # what the row is about, for the key: a mutable file overwritten in place (inside the target directory / the target itself)
+                t1 = tree_of(c["T1"])
+                inplace = [p for p, v in t1.items() if v[2] and w0[ts].get(p) != v]
+                feature = "plain" if not inplace else "inplace_target" if inplace == [c["tgt"]["p"]] else "inplace_in_directory"
+                bad("ok_expected:got_%s:%s:%s:%s" % (o["status"], feature, sides, flags), "the command must succeed")
                 continue
             kind, p = diff_class(tree_of(c["T1"]), got[ts])
             if kind:
                 e, g = tree_of(c["T1"]).get(p), got[ts].get(p)
-                bad("tree:%s:%s:%s" % (sides, kind, flags), "the %s tree afterwards differs at %r: Spec %s, real %s" % (ts, p, e, g))
+                bad("tree:%s:%s_target:%s:%s" % (kind, ts, flags, sides), "the %s tree afterwards differs at %r: Spec %s, real %s" % (ts, p, e, g))
         else:
             if o["status"] == "ok":
-                bad("error_expected:%s:%s:got_ok" % (sides, "+".join(sorted(c["errs"]))), "the command must fail")
+                bad("error_expected:%s:got_ok:%s" % ("+".join(sorted(c["errs"])), sides), "the command must fail")
             elif o["status"] not in c["errs"]:
-                bad("error_class:%s:got_%s" % ("+".join(sorted(c["errs"])), o["status"]), "the command failed for another reason")
+                bad("error_class:got_%s:%s" % (o["status"], "+".join(sorted(c["errs"]))), "the command failed for another reason")
             tolerated = set(c["maydirs"]) if o["status"] == "E_COLLIDE" else set()
             seen = {p: v for p, v in got[ts].items() if not (p in tolerated and v[0] == "dir" and p not in w0[ts])}
             kind, p = diff_class(w0[ts], seen)
             if kind:
-                bad("error_changed_tree:%s:%s:%s" % (sides, "+".join(sorted(c["errs"])), kind),
+                bad("error_changed_tree:%s:%s:%s" % (kind, "+".join(sorted(c["errs"])), sides),
                     "a refused command changed the %s tree at %r" % (ts, p))
 
     byexp = collections.Counter(c["expect"] for c in cases)
